@@ -12,6 +12,7 @@ CONSTANTS Comp = "multi"
   NBuf = 2
   Gaps <- G_6
   Strict = FALSE
+  Busy = FALSE
   D = 80
 INIT Init
 NEXT Next
